@@ -32,6 +32,7 @@ type verifRecT struct {
 	outsideTx                       int // statements issued with no transaction open
 	afterClose                      int // statements issued on a finished transaction
 	commitFails                     bool
+	commitTxDone                    bool // a failing commit reports sql.ErrTxDone (deadline expired, already rolled back)
 	affected                        int64
 	rowFor                          string // a query starting with this text finds one row (a zero); "" = no query finds rows
 }
@@ -72,6 +73,10 @@ func (r *verifRecT) commit() error {
 	r.open--
 	if r.commitFails {
 		r.commitFailed = true
+		if r.commitTxDone {
+			// the deadline passed: database/sql has rolled the transaction back and says so
+			return sql.ErrTxDone
+		}
 		return verifErrGeneric
 	}
 	r.commits++
@@ -354,6 +359,7 @@ func verifAdapter(nStmts int) *adapter {
 	verifAssume(d >= -1 && d < nStmts && (d != f || d == -1))
 	verifRec.dupAt = d
 	verifRec.commitFails = verifNondetBool("commitFails")
+	verifRec.commitTxDone = verifNondetBool("commitReportsTxDone")
 	verifRec.affected = int64(verifChoose("rowsAffected", 2))
 	return verifNewAdapter()
 }
